@@ -77,6 +77,9 @@ def digest(obj):
 # projection of a real reactor onto the abstract state of spec/db/Layout.tla
 # ------------------------------------------------------------------------------------------------------------
 COMPOSITION_PARAMS = ("numberDensities", "nuclides", "detailedNDens")
+# serialNum is compared as the identity of the node; maxAssemNum is reset by Core.processLoading(dbLoad=True) to the
+# largest assembly number present in the core (DESIGN C04 modelling note: legitimately re-derived)
+NOT_COMPARED = ("serialNum", "maxAssemNum")
 
 
 def walk(root):
@@ -129,13 +132,16 @@ def param_maps(o):
                 dims[pd.name] = canon(v)
         elif pd.name in COMPOSITION_PARAMS:
             comp[pd.name] = canon(v)
-        elif pd.name == "serialNum":
+        elif pd.name in NOT_COMPARED:
             continue
         elif pd.serializer is not None:
             rest[pd.name] = canon(str(v))
         else:
             rest[pd.name] = canon(v)
     return dims, comp, rest
+
+
+PROBES = ((0, 0, 0), (1, 0, 0), (0, 1, 0), (1, 1, 0), (0, 0, 1), (-1, 2, 0))
 
 
 def observables(o):
@@ -181,8 +187,9 @@ def observables(o):
             q(om, "flags", lambda: str(o.p.flags))
     if o.spatialGrid is not None:
         g = o.spatialGrid
-        q(oc, "cellCoords", lambda: [list(g.getCoordinates(c.spatialLocator.indices)) for c in o
-                                     if type(c.spatialLocator).__name__ == "IndexLocation"][:12])
+        # "the coordinates of every index": a fixed probe set (an index outside a bounds-defined grid raises on both sides)
+        for ijk in PROBES:
+            q(oc, "cell%s" % (ijk,), lambda ijk=ijk: list(g.getCoordinates(ijk)))
         q(oc, "symmetry", lambda: str(g.symmetry))
         q(oc, "geomType", lambda: str(g.geomType))
     return oc, od, om
@@ -296,7 +303,7 @@ def project_file(group):
         "indexInData": ints(lay["indexInData"][:]), "numChildren": ints(lay["numChildren"][:]),
         "locationType": dec(lay["locationType"][:]),
         "location": [[repr(float(x)) for x in row] for row in lay["location"][:].tolist()],
-        "gridIndex": [str(int(x)) for x in lay["gridIndex"][:]],
+        "gridIndex": ["nan" if x != x else str(int(x)) for x in lay["gridIndex"][:].tolist()],
         "grids": graw,
         "material": dec(lay["material"][:]),
         "temperatures": [[repr(float(x)) for x in row] for row in lay["temperatures"][:].tolist()],
@@ -358,6 +365,8 @@ class History:
         self.dbs = {}       # file tag -> Database (open for writing)
         self.slots = {}     # slot -> (file tag, cycle, node)
         self.loaded = {}    # handle -> reactor
+        self.loaded_at = {}  # handle -> index of its Load event
+        self.slot_src = {}  # slot -> tag of the projection that was written
         self.details = {}   # ("live", event index) / ("load", h) / ... -> (nodes, details) for naming differences
         self.notes = []
 
@@ -483,6 +492,11 @@ class History:
             self.notes.append("%s: %s" % (tag, n))
         return nodes
 
+    def advance(self, cycle, node=0):
+        """the time node the next snapshot is written at (a reactor parameter, so part of the observed state)"""
+        self.r.p.cycle, self.r.p.timeNode = cycle, node
+        self.how.append("time node (%d, %d)" % (cycle, node))
+
     def state(self):
         settle(self.r)
         nodes = self._proj(self.r, "live@%d" % (len(self.ev) + 1))
@@ -500,29 +514,27 @@ class History:
             self.dbs[tag] = db
         return self.dbs[tag]
 
-    def _write(self, r, slot, tag, cycle, node, call, extra):
+    def _write(self, r, slot, tag, call, extra):
         import h5py  # noqa: F401
         from armi.bookkeeping.db.database import getH5GroupName
 
         db = self._db(tag)
-        oc, on = r.p.cycle, r.p.timeNode
-        r.p.cycle, r.p.timeNode = cycle, node
+        cycle, node = int(r.p.cycle), int(r.p.timeNode)
         a = dict({"n": call, "s": slot}, **extra)
         try:
             db.writeToDB(r)
         except (ValueError, NotImplementedError) as ex:
             self.ev.append({"a": dict(a, n="WriteRefused"), "post": {"exception": type(ex).__name__}})
             return False
-        finally:
-            r.p.cycle, r.p.timeNode = oc, on
         db.h5db.flush()
         self.slots[slot] = (tag, cycle, node)
+        self.slot_src[slot] = ("load@%d" % self.loaded_at[extra["h"]]) if "h" in extra else "live@%d" % len(self.ev)
         self.ev.append({"a": a, "post": {"file": project_file(db.h5db[getH5GroupName(cycle, node)])}})
         return True
 
     def write(self, slot):
         before = self.details.get("live@%d" % len(self.ev), (None,))[0]
-        ok = self._write(self.r, slot, "a", slot - 1, 0, "Write", {})
+        ok = self._write(self.r, slot, "a", "Write", {})
         # frame condition "a write leaves the reactor as it was": equality of two projections of the same object
         after, _, _ = project(self.r)
         if before is not None and after != before:
@@ -530,7 +542,7 @@ class History:
         return ok
 
     def resave(self, h, slot):
-        return self._write(self.loaded[h], slot, "b", slot - 1, 0, "Resave", {"h": h})
+        return self._write(self.loaded[h], slot, "b", "Resave", {"h": h})
 
     def load(self, slot, h):
         from armi.bookkeeping.db.database import Database
@@ -545,6 +557,7 @@ class History:
         finally:
             db.close()
         self.loaded[h] = r2
+        self.loaded_at[h] = len(self.ev) + 1
         nodes = self._proj(r2, "load@%d" % (len(self.ev) + 1))
         self.ev.append({"a": {"n": "Load", "s": slot, "h": h}, "post": {"state": nodes}})
 
@@ -575,11 +588,13 @@ def play(hid, family, variant, seed, workdir, nmut=6, two_snapshots=True):
     h = History(hid, family, variant, rng, workdir)
     try:
         h.mutate(rng.randrange(0, nmut + 1))
+        h.advance(0)
         h.state()
         ok1 = h.write(1)
         ok2 = False
         if two_snapshots:
             h.mutate(rng.randrange(1, nmut + 1))
+            h.advance(1)
             h.state()
             ok2 = h.write(2)
         if ok1:
@@ -592,3 +607,417 @@ def play(hid, family, variant, seed, workdir, nmut=6, two_snapshots=True):
     finally:
         h.close()
     return h
+
+
+# ------------------------------------------------------------------------------------------------------------
+# naming of TLC's verdicts (diagnostics only: THAT a clause fails on a node is TLC's verdict; WHICH parameter / query
+# inside an opaque digest differs is looked up in the un-digested projections so that violation keys are stable)
+# ------------------------------------------------------------------------------------------------------------
+CLAUSE_DETAIL = {"Dimensions": "pd", "Composition": "pn", "Parameters": "pp", "Coordinates": "oc", "ResolvedDimensions": "od",
+                 "Quantities": "om"}
+
+
+def name_verdict(h, v):
+    """-> list of (key suffix, text) for one verdict line of DbState_trace"""
+    call, clause = v["call"], v["clause"]
+    if clause.startswith("File:") or clause in ("Shape", "RefusalExpected", "LoadTwice") or clause.startswith("UnexpectedRefusal"):
+        return [(clause, "%s: %s differs from the specification at %s position(s), first %s" % (call, clause, v["n"], v["first"]))]
+    ev = h.ev[v["at"] - 1]
+    exp, got = v.get("exp", {}), v.get("got", {})
+    if clause in CLAUSE_DETAIL:
+        fld = CLAUSE_DETAIL[clause]
+        src = h.details.get(h.slot_src.get(ev["a"]["s"]))
+        dst = h.details.get("load@%d" % v["at"])
+        names = {}
+        if src and dst:
+            by_sn_src = {n["sn"]: d for n, d in zip(*src)}
+            by_sn_dst = {n["sn"]: d for n, d in zip(*dst)}
+            for sn in v.get("sns", []):
+                a, b = by_sn_src.get(sn), by_sn_dst.get(sn)
+                if a is None or b is None:
+                    continue
+                for k in sorted(set(a[fld]) | set(b[fld])):
+                    if a[fld].get(k, "<absent>") != b[fld].get(k, "<absent>"):
+                        names.setdefault(k, (a[fld].get(k, "<absent>"), b[fld].get(k, "<absent>"), sn))
+        if not names:
+            return [(clause, "%s: %s differs on %d node(s), first %s %s" % (call, clause, v["n"], v.get("ty"), v.get("nm")))]
+        tyof = {n["sn"]: (n["ty"], n["nm"]) for n in src[0]}
+        return [("%s:%s" % (clause, k), "%s: %s `%s` of %s %s (serial %s): written %s, loaded %s (%d node(s) fail the clause)" % (
+            call, clause, k, tyof[sn][0], tyof[sn][1], sn, json.dumps(a)[:120], json.dumps(b)[:120], v["n"]))
+            for k, (a, b, sn) in sorted(names.items())]
+    e, g = exp.get(_FIELD.get(clause, ""), None), got.get(_FIELD.get(clause, ""), None)
+    suffix = clause
+    if clause == "LocKind":
+        suffix = "LocKind:%s->%s" % (e, g)
+    elif clause in ("Names", "Types", "Materials", "ChildOrder", "Grids", "GridOwner", "LocValue", "Temperatures", "SortKeys", "Serials"):
+        suffix = "%s:%s" % (clause, v.get("ty"))
+    return [(suffix, "%s: %s of %s %s: written %s, loaded %s (%d node(s))" % (
+        call, clause, v.get("ty"), v.get("nm"), json.dumps(e)[:150], json.dumps(g)[:150], v["n"]))]
+
+
+_FIELD = {"Types": "ty", "Names": "nm", "Serials": "sn", "ChildOrder": "kids", "LocKind": "lk", "LocValue": "loc", "GridOwner": "lg",
+          "Grids": "grid", "Materials": "mat", "Temperatures": "tmp", "SortKeys": "ck"}
+
+
+# ------------------------------------------------------------------------------------------------------------
+# spec -> code: every small tree TLC enumerates (Layout_mc emission) is built from real objects, written with
+# Database.writeToDB into an in-memory HDF5 file and loaded with Database.load
+# ------------------------------------------------------------------------------------------------------------
+TYPE_OF = {"R": "Reactor", "A": "Composite", "B": "VerifBox", "K": "Circle"}
+_BOX = None
+
+
+def _box_class():
+    global _BOX
+    if _BOX is None:
+        from armi.reactor import composites
+
+        class VerifBox(composites.Composite):
+            """a second composite class (its own parameter group in the file)"""
+
+        _BOX = VerifBox
+    return _BOX
+
+
+class GenericAdapter:
+    def __init__(self):
+        armi_ready()
+        from armi import settings
+        from armi.reactor import blueprints
+
+        self.cs = settings.Settings()
+        self.bp = blueprints.Blueprints()
+        self.n = 0
+
+    def grid(self, raw):
+        from armi.reactor import grids
+
+        if raw == "":
+            return None
+        if raw in ("Cart#1", "Cart#1b"):      # one grid, two spellings of its geometry type (what the blueprints do)
+            g = grids.HexGrid.fromPitch(1.0, numRings=2, cornersUp=True)
+            g._geomType = "hex_corners_up" if raw == "Cart#1b" else "hex"
+            return g
+        if raw == "Cart#2":
+            g = grids.CartesianGrid.fromRectangle(2.0, 3.0, numRings=2)
+            g._geomType = "cartesian"
+            return g
+        if raw == "Axial#1":
+            return grids.AxialGrid.fromNCells(3)
+        raise AssertionError(raw)
+
+    def build(self, t):
+        from armi.reactor import composites, grids, reactors
+        from armi.reactor.components import Circle
+
+        objs = []
+        for nd in t:
+            if nd["ty"] == "R":
+                o = reactors.Reactor(self.cs.caseTitle, self.bp)
+                for c in list(o):
+                    o.remove(c)
+            elif nd["ty"] == "K":
+                o = Circle(nd["nm"], "HT9", Tinput=25.0, Thot=400.5, od=float(nd["ck"][0]), id=0.0, mult=1)
+            elif nd["ty"] == "B":
+                o = _box_class()(nd["nm"])
+            else:
+                o = composites.Composite(nd["nm"])
+            o.p.serialNum = nd["sn"]
+            g = self.grid(nd["grid"]["raw"])
+            if g is not None:
+                g.armiObject = o
+                o.spatialGrid = g
+            objs.append(o)
+        for nd, o in zip(t, objs):
+            for k in nd["kids"]:
+                o.add(objs[k - 1])
+        for nd, o in zip(t, objs):
+            par = objs[nd["lg"] - 1] if nd["lg"] else None
+            if nd["lk"] == "N":
+                o.spatialLocator = None
+            elif nd["lk"] == "C":
+                x, y, z = (float(v) for v in nd["loc"][0])
+                o.spatialLocator = grids.CoordinateLocation(x, y, z, par.spatialGrid if par is not None else None)
+            elif nd["lk"] == "I":
+                o.spatialLocator = par.spatialGrid[tuple(nd["loc"][0])]
+            else:
+                m = grids.MultiIndexLocation(grid=par.spatialGrid)
+                for ijk in nd["loc"]:
+                    m.append(par.spatialGrid[tuple(ijk)])
+                o.spatialLocator = m
+        return objs
+
+    def run_case(self, case):
+        """-> list of (key, text) differences between the real code and the specification on one tree"""
+        import h5py
+        from armi.bookkeeping.db.database import Database
+        from armi.bookkeeping.db.layout import Layout
+
+        t = case["t"]
+        objs = self.build(t)
+        root = objs[0]
+        self.n += 1
+        db = Database("c04-generic-%d.h5" % self.n, "w")
+        db.h5db = h5py.File("c04-generic-%d-%d" % (os.getpid(), self.n), "w", driver="core", backing_store=False)
+        out = []
+        try:
+            try:
+                db.writeToDB(root)
+                refused = None
+            except (ValueError, NotImplementedError) as ex:
+                refused = type(ex).__name__
+            if not case["sortable"]:
+                if refused is None:
+                    out.append(("write:RefusalExpected", "writeToDB stored a tree whose siblings cannot be ordered"))
+                elif "c00n00/layout" in db.h5db:
+                    out.append(("write:RefusalLeavesLayout", "writeToDB raised %s but left layout/* behind" % refused))
+                return out
+            if refused is not None:
+                return [("write:UnexpectedRefusal:" + refused, "writeToDB raised %s on a tree the specification accepts" % refused)]
+            # (i) the file
+            got = project_file(db.h5db["c00n00"])
+            rawkey = {}
+            for nd, o in zip(t, objs):
+                if nd["grid"]["raw"]:
+                    rawkey[nd["grid"]["raw"]] = grid_key(o.spatialGrid)[0]
+            exp = dict(case["file"])
+            exp["type"] = [TYPE_OF[x] for x in exp["type"]]
+            exp["name"] = [root.name if x == t[0]["nm"] else x for x in exp["name"]]
+            exp["grids"] = [rawkey[x] for x in exp["grids"]]
+            for k in sorted(exp):
+                if exp[k] != got[k]:
+                    out.append(("write:File:" + k, "layout/%s: specification %s, file %s" % (k, json.dumps(exp[k])[:200], json.dumps(got[k])[:200])))
+            anc = Layout.computeAncestors(got["serialNum"], got["numChildren"])
+            if [0 if a is None else int(a) for a in anc] != case["anc"]:
+                out.append(("computeAncestors", "Layout.computeAncestors %s, specification %s" % (anc, case["anc"])))
+            if out:
+                return out
+            # (ii) the loaded tree
+            r2 = db.load(0, 0, cs=self.cs, bp=self.bp)
+            nodes, _, notes = project(r2)
+            expl = case["loaded"]
+            if sorted(n["sn"] for n in nodes) != sorted(n["sn"] for n in expl):
+                return [("load:Shape", "loaded tree has serial numbers %s, specification %s" % (
+                    sorted(n["sn"] for n in nodes), sorted(n["sn"] for n in expl)))]
+
+            def by_sn(ns):     # children and grid owner named by serial number (as Layout.tla BySn)
+                return {n["sn"]: dict(n, kids=[ns[k - 1]["sn"] for k in n["kids"]], lg=ns[n["lg"] - 1]["sn"] if n["lg"] > 0 else n["lg"]) for n in ns}
+
+            E, G = by_sn(expl), by_sn(nodes)
+            for sn in sorted(E):
+                e, g = dict(E[sn]), G[sn]
+                e["ty"] = TYPE_OF[e["ty"]]
+                if sn == t[0]["sn"]:
+                    e["nm"] = root.name
+                for clause, fld in (("Types", "ty"), ("Names", "nm"), ("ChildOrder", "kids"), ("LocKind", "lk"),
+                                    ("GridOwner", "lg"), ("Materials", "mat"), ("Temperatures", "tmp")):
+                    if e[fld] != g[fld]:
+                        suffix = "LocKind:%s->%s" % (e[fld], g[fld]) if clause == "LocKind" else "%s:%s" % (clause, e["ty"])
+                        out.append(("load:" + suffix, "generic tree: %s of %s: specification %s, loaded %s" % (
+                            clause, e["nm"], json.dumps(e[fld]), json.dumps(g[fld]))))
+                if e["lk"] == g["lk"] and e["loc"] != g["loc"]:
+                    out.append(("load:LocValue:" + e["ty"], "generic tree: location of %s: specification %s, loaded %s" % (e["nm"], e["loc"], g["loc"])))
+                if (e["grid"]["raw"] == "") != (g["grid"]["raw"] == "") or e["grid"]["ax"] != g["grid"]["ax"]:
+                    out.append(("load:Grids:" + e["ty"], "generic tree: grid of %s: specification %s, loaded %s" % (e["nm"], e["grid"], g["grid"])))
+            # grids: the loaded grid of a node must be (observationally) the grid the node had
+            gobs = {}
+            for nd, o in zip(t, objs):
+                if nd["grid"]["raw"]:
+                    n1, _, _ = project(o)
+                    gobs[nd["sn"]] = n1[0]["grid"]["obs"]
+            for g in nodes:
+                if g["sn"] in gobs and g["grid"]["obs"] != gobs[g["sn"]]:
+                    out.append(("load:Grids:%s" % g["ty"], "generic tree: grid of %s changed: %s -> %s" % (g["nm"], gobs[g["sn"]], g["grid"]["obs"])))
+            return out
+        finally:
+            db.h5db.close()
+            db.h5db = None
+
+
+# ------------------------------------------------------------------------------------------------------------
+# the check
+# ------------------------------------------------------------------------------------------------------------
+_SELFTEST = False
+_EMIT = {}
+DB_ACTIONS = ("AssignParam", "SetComposition", "SetTemperature", "Swap", "Rotate", "Detach", "Grow", "Write", "WriteRefused",
+              "Load", "Resave")
+CALL_PREFIX = {"Load": "load", "Write": "write", "Resave": "resave", "WriteRefused": "write"}
+
+
+def _tlc_verdict(rep, label, res):
+    rep.add_tlc(label, res)
+    if res.violation:
+        rep.violation("tlc:" + res.violation["name"], "TLC: %s violated in the specification (%s)" % (res.violation["name"], label),
+                      {"direction": "tlc", "trace": res.violation["trace"][:20000]})
+
+
+def generic_cases(cfg):
+    if cfg not in _EMIT:
+        _EMIT[cfg] = tlc.run("Layout_mc", cfg, MODDIR, workers=1, coverage=False, timeout=3000)
+    res = _EMIT[cfg]
+    return res, [p for p in res.prints if isinstance(p, dict) and "t" in p]
+
+
+def history_plan(n, seed):
+    from harness import gen_reactor
+
+    fams = gen_reactor.FAMILIES
+    return [("h%d" % i, fams[i % len(fams)], (i // len(fams) + seed) % 12, seed * 100003 + i) for i in range(n)]
+
+
+def run_histories(plan, workdir):
+    hs, traces = {}, []
+    for hid, fam, var, sd in plan:
+        h = play(hid, fam, var, sd, workdir)
+        hs[hid] = h
+        traces.append(h.trace())
+    return hs, traces
+
+
+def judge_histories(rep, hs, traces, plan):
+    bad, stats = tracecheck.validate("DbState_trace", "DbState_trace.cfg", MODDIR, traces, timeout=3000)
+    rep.add_tlc("trace-validation", stats["tlc"])
+    meta = {p[0]: p for p in plan}
+    for b in bad:
+        tid = b["trace"]["id"]
+        why = (b.get("mismatch") or {}).get("reason", b.get("invariant", "event not enabled"))
+        rep.violation("trace:rejected:" + str(why).replace(" ", "-"),
+                      "recorded history %s is not a behaviour of DbState at event %d: %s" % (tid, b["matched"] + 1, why),
+                      {"direction": "trace", "plan": meta.get(tid), "matched": b["matched"], "tlc": b.get("tlc")})
+    nverd = 0
+    for v in stats["tlc"].prints:
+        if not (isinstance(v, dict) and "verdict" in v):
+            continue
+        nverd += 1
+        h = hs[v["verdict"]]
+        for suffix, text in name_verdict(h, v):
+            rep.violation("%s:%s" % (CALL_PREFIX.get(v["call"], v["call"].lower()), suffix),
+                          "%s [%s reactor, history %s, event %d; mutations: %s]" % (
+                              text, h.family, h.id, v["at"], ", ".join(_hows(h, v["at"]))[:300]),
+                          {"direction": "trace", "plan": meta.get(h.id), "verdict": {k: v[k] for k in v if k not in ("exp", "got")},
+                           "expected_node": v.get("exp"), "loaded_node": v.get("got")})
+    for h in hs.values():
+        for n in h.notes:
+            if n == "write-changed-original":
+                rep.violation("write:changes-original", "Database.writeToDB changed the reactor it wrote (%s, history %s)" % (h.family, h.id),
+                              {"direction": "trace", "plan": meta.get(h.id)})
+            else:
+                rep.violation("load:non-integral-index", "%s (%s, history %s)" % (n, h.family, h.id), {"direction": "trace", "plan": meta.get(h.id)})
+    return nverd
+
+
+def _hows(h, at):
+    out = []
+    for e in h.ev[:at]:
+        if e["a"]["n"] == "State":
+            out += e["a"]["how"]
+    return out
+
+
+def run(rep, tier, seed):
+    thorough = tier == "thorough"
+    sfx = "_thorough" if thorough else ""
+    armi_ready()
+    for m in ("Layout_mc", "DbState_mc", "DbState_trace"):
+        tlc.sany(m, MODDIR)
+    rep.exhaustive = True
+    if not _SELFTEST:
+        # 1. the design: layout algebra over all small trees; database histories over the 9-node reactor
+        res = tlc.run("Layout_mc", "Layout_mc%s.cfg" % sfx, MODDIR, want_prints=False, timeout=3000)
+        _tlc_verdict(rep, "exhaustive:Layout_mc%s.cfg" % sfx, res)
+        if res.coverage.get("AddChild", (0, 0))[1] == 0 or res.distinct < 1000:
+            raise tlc.MachineryError("vacuous: Layout_mc explored %d trees" % res.distinct)
+        res = tlc.run("DbState_mc", "DbState_mc%s.cfg" % sfx, MODDIR, want_prints=False, timeout=3000)
+        _tlc_verdict(rep, "exhaustive:DbState_mc%s.cfg" % sfx, res)
+        never = [a for a in DB_ACTIONS if res.coverage.get(a, (0, 0))[1] == 0]
+        if never:
+            raise tlc.MachineryError("vacuous: DbState actions never taken: %s" % never)
+
+    # 2. spec -> code: TLC's trees, as real objects, through Database.writeToDB / Database.load
+    eres, cases = generic_cases("Layout_emit%s.cfg" % sfx)
+    rep.add_tlc("cases:Layout_emit%s.cfg" % sfx, eres)
+    ncase = 2500 if thorough else (150 if _SELFTEST else 260)
+    rng = random.Random(seed)
+    sample = cases if len(cases) <= ncase else rng.sample(cases, ncase)
+    if not sample or not any(not c["sortable"] for c in sample) or not any(c["sortable"] for c in sample):
+        raise tlc.MachineryError("vacuous: %d emitted trees" % len(sample))
+    ad = GenericAdapter()
+    nontrivial = 0
+    for c in sample:
+        nontrivial += 1 if len(c["t"]) > 1 else 0
+        try:
+            diffs = ad.run_case(c)
+        except Exception as ex:  # noqa: BLE001  an exception escaping a legal write/load is a verdict about the code
+            import traceback
+
+            diffs = [("generic:exception:" + type(ex).__name__, "real code raised on a legal tree: %s" % traceback.format_exc()[-600:])]
+        for k, text in diffs:
+            rep.violation(k, text, {"direction": "generic", "case": c})
+    rep.add_replay("generic-trees", len(sample), nontrivial,
+                   "every tree TLC enumerates (Layout_emit) is built from real Reactor/Composite/Circle objects, written with "
+                   "Database.writeToDB to an in-memory HDF5 file, layout/* compared with FileObs(Flatten(t)), loaded with Database.load and "
+                   "compared with LoadFile; refusals must raise and store no layout; non-trivial = trees with children")
+    rep.sample({"kind": "generic-tree", "tree": sample[len(sample) // 2]["t"], "expected_file": sample[len(sample) // 2]["file"]})
+
+    # 3. code -> spec: real histories on reactors armi builds from generated blueprints
+    nh = 240 if thorough else (6 if _SELFTEST else 8)
+    plan = history_plan(nh, seed)
+    wd = common.workdir("c04")
+    hs, traces = run_histories(plan, wd)
+    nload = sum(1 for t in traces for e in t["ev"] if e["a"]["n"] == "Load")
+    if nload == 0:
+        raise tlc.MachineryError("vacuous: no Load event recorded")
+    judge_histories(rep, hs, traces, plan)
+    rep.add_traces("real-histories", len(traces), sum(len(t["ev"]) for t in traces),
+                   "histories State/Write/Load/Resave on reactors built from generated blueprints (hex third/full, hex with pin lattice, "
+                   "cartesian full/quarter with pin lattice, theta-RZ; spent fuel pool) after random parameter assignments, composition and "
+                   "temperature changes, swaps, rotations, discharges, growth to full core; TLC computes the required file layout and "
+                   "loaded state for every call and judges every clause on every node")
+    t0 = traces[0]
+    rep.sample({"kind": "history", "id": t0["id"], "family": plan[0][1], "calls": [e["a"] for e in t0["ev"]],
+                "nodes": len(t0["ev"][0]["post"]["live"]), "first_node": t0["ev"][0]["post"]["live"][1]})
+    rep.extra["history_calls"] = {k: sum(1 for t in traces for e in t["ev"] if e["a"]["n"] == k) for k in ("State", "Write", "WriteRefused", "Load", "Resave")}
+    muts = {}
+    for t in traces:
+        for e in t["ev"]:
+            for hname in e["a"].get("how", []):
+                k = hname.split(" ")[0]
+                muts[k] = muts.get(k, 0) + 1
+    rep.extra["mutations_applied"] = muts
+    rep.assume(
+        "I1 child order is compared in the canonical sibling order writer and loader apply (ARMI's sortReactor behaviour)",
+        "I2 persistent parameters are compared by VALUE in the C05 normal form (python/numpy scalar and list/array types not "
+        "distinguished, reals to 12 significant digits); unset = default; `assigned` bits are not compared",
+        "I3 a loaded material is a fresh instance: compared by class and through the component's queries; the material object's own "
+        "state set by blueprint material modifications (e.g. UZr zrFrac -> material.density()) is not persisted and not compared",
+        "I4 Assembly.add re-indexes blocks: local indices are compared (the file stores complete indices)",
+        "I5 grids are compared by class, unit steps, bounds, limits, offset, public geomType and symmetry; the private spelling "
+        "'hex_corners_up' (reduce()) comes back as 'hex' and is not counted as a difference; layout/grids must hold reduce() literally",
+        "the driver settles the reactor before observing it (Component.getVolume, Core.setBlockMassParams) as DESIGN C04 prescribes; "
+        "maxAssemNum (reset by Core.processLoading) and serialNum (the node identity) are not compared as parameters",
+        "AssignParam replaces numeric / 1-d real-array parameter values only; parameters without default: zrFrac, buRate only",
+    )
+
+
+def replay(payload):
+    armi_ready()
+    if payload.get("direction") == "generic":
+        d = GenericAdapter().run_case(payload["case"])
+        for k, text in d:
+            print(k, "--", text)
+        print("no difference" if not d else "%d difference(s)" % len(d))
+        return 1 if d else 0
+    if payload.get("direction") == "trace" and payload.get("plan"):
+        from harness.report import Report
+
+        plan = [tuple(payload["plan"])]
+        hs, traces = run_histories(plan, common.workdir("c04"))
+        rep = Report("C04", "replay", 0)
+        judge_histories(rep, hs, traces, plan)
+        for v in rep.violations:
+            print(v["key"], "--", v["what"][:400])
+        hit = [v for v in rep.violations if v["key"] == payload.get("key")]
+        print("history %s re-run: %d verdict key(s); the reported key %s" % (plan[0][0], len(rep.violations), "REPRODUCED" if hit else "not reproduced"))
+        return 1 if hit else 0
+    print("replay of direction=%s: see payload (TLC trace)" % payload.get("direction"))
+    return 0
